@@ -37,14 +37,17 @@ def MapOk (s : Store) (as : List Nat) : Prop := ∀ a ∈ as, s.map (s.key a) = 
 theorem discard_key (s : Store) (k : Nat) : (discard k s).key = s.key := by
   unfold discard; split <;> rfl
 
-theorem iterRem_spec (p : Nat → Bool) : ∀ (as : List Nat) (s : Store) (a : Nat),
+theorem iterRem_spec_fuel (p : Nat → Bool) : ∀ (as : List Nat) (s : Store) (a : Nat) (f : Nat),
     NextChain s a as → PrevChain s as → as.Nodup → 0 ∉ as → (as.map s.key).Nodup → MapOk s as →
-    (∀ b bs, as = b :: bs → s.prev b ∉ bs) →
-    (iterRem p (as.length + 1) s a).1 = as.map s.key
-  | [], s, a, hn, _, _, _, _, _, _ => by
+    (∀ b bs, as = b :: bs → s.prev b ∉ bs) → as.length < f →
+    (iterRem p f s a).1 = as.map s.key
+  | [], s, a, f, hn, _, _, _, _, _, _, hf => by
     simp only [NextChain] at hn
+    obtain ⟨f', rfl⟩ : ∃ f', f = f' + 1 := ⟨f - 1, by simp at hf; omega⟩
     simp [iterRem, hn]
-  | b :: bs, s, a, hn, hp, hnd, h0, hkn, hmap, hpb => by
+  | b :: bs, s, a, f, hn, hp, hnd, h0, hkn, hmap, hpb, hf => by
+    obtain ⟨f', rfl⟩ : ∃ f', f = f' + 1 := ⟨f - 1, by simp at hf; omega⟩
+    have hf' : bs.length < f' := by simp at hf; omega
     obtain ⟨rfl, hn'⟩ := hn
     have hb0 : a ≠ 0 := by intro h; apply h0; simp [h]
     have hnd' : bs.Nodup := (List.nodup_cons.mp hnd).2
@@ -57,7 +60,7 @@ theorem iterRem_spec (p : Nat → Bool) : ∀ (as : List Nat) (s : Store) (a : N
       intro z hz h
       simp only [List.map_cons, List.nodup_cons, List.mem_map, not_exists, not_and] at hkn
       exact hkn.1 z hz h
-    simp only [List.length_cons, iterRem, hb0, ↓reduceIte, List.map_cons, List.cons.injEq, true_and]
+    simp only [iterRem, hb0, ↓reduceIte, List.map_cons, List.cons.injEq, true_and]
     by_cases hk : p (s.key a) = true
     · -- the consumer discards the element being visited
       simp only [hk, ↓reduceIte]
@@ -72,7 +75,7 @@ theorem iterRem_spec (p : Nat → Bool) : ∀ (as : List Nat) (s : Store) (a : N
         rw [hdis]; simp only [unlink]; split <;> rfl
       have hkey : (discard (s.key a) s).key = s.key := discard_key s _
       rw [hnx]
-      have ih := iterRem_spec p bs (discard (s.key a) s) (s.next a)
+      have ih := iterRem_spec_fuel p bs (discard (s.key a) s) (s.next a) f'
         (nextChain_congr bs _ hnext hn')
         (by
           match bs, hp, hnd', hn' with
@@ -100,10 +103,11 @@ theorem iterRem_spec (p : Nat → Bool) : ∀ (as : List Nat) (s : Store) (a : N
           have : (discard (s.key a) s).prev c = s.prev a := by rw [hdis]; simp [unlink, hc]
           rw [this]
           exact fun h => hpa (by simp [h]))
+        hf'
       rw [hkey] at ih
       exact ih
     · simp only [hk, Bool.false_eq_true, ↓reduceIte]
-      have ih := iterRem_spec p bs s (s.next a) hn'
+      have ih := iterRem_spec_fuel p bs s (s.next a) f' hn'
         (by
           match bs, hp with
           | [], _ => trivial
@@ -115,6 +119,456 @@ theorem iterRem_spec (p : Nat → Bool) : ∀ (as : List Nat) (s : Store) (a : N
           have : s.prev c = a := hp.1
           rw [this]
           exact fun h => hab (by simp [h]))
+        hf'
       exact ih
+
+theorem iterRem_spec (p : Nat → Bool) (as : List Nat) (s : Store) (a : Nat)
+    (hn : NextChain s a as) (hp : PrevChain s as) (hnd : as.Nodup) (h0 : 0 ∉ as) (hk : (as.map s.key).Nodup)
+    (hm : MapOk s as) (hb : ∀ b bs, as = b :: bs → s.prev b ∉ bs) :
+    (iterRem p (as.length + 1) s a).1 = as.map s.key :=
+  iterRem_spec_fuel p as s a (as.length + 1) hn hp hnd h0 hk hm hb (Nat.lt_succ_self _)
+
+/-! ### representation invariant: the pointer structure denotes a list (theorem `ptr_refines`) -/
+
+/-- consecutive cells of the ring are linked in both directions -/
+def Linked (s : Store) : List Nat → Prop
+  | x :: y :: r => s.next x = y ∧ s.prev y = x ∧ Linked s (y :: r)
+  | _ => True
+
+/-- `as` are the addresses of the cells in ring order; the ring is `0 (sentinel), as…, 0` -/
+structure ReprA (s : Store) (as : List Nat) (L : List Nat) : Prop where
+  linked : Linked s (0 :: as ++ [0])
+  keys : as.map s.key = L
+  nodup : as.Nodup
+  nz : 0 ∉ as
+  bound : ∀ a ∈ as, a < s.fresh
+  len : as.length < s.fresh
+  knodup : L.Nodup
+  mapIn : ∀ a ∈ as, s.map (s.key a) = some a
+  mapOut : ∀ k, k ∉ L → s.map k = none
+
+/-- walking `next` from the sentinel yields cells whose keys are `L`, `prev` is the mirror, `map` maps exactly
+    the keys of `L` to their cells, addresses are distinct, non-sentinel and below the allocator -/
+def Repr (s : Store) (L : List Nat) : Prop := ∃ as, ReprA s as L
+
+theorem linked_split (s : Store) : ∀ (P0 : List Nat) (p n : Nat) (N0 : List Nat),
+    Linked s (P0 ++ p :: n :: N0) ↔ Linked s (P0 ++ [p]) ∧ s.next p = n ∧ s.prev n = p ∧ Linked s (n :: N0)
+  | [], p, n, N0 => by simp [Linked]
+  | [x], p, n, N0 => by
+    simp only [List.cons_append, List.nil_append, Linked, and_true]
+    constructor
+    · rintro ⟨h1, h2, h3, h4, h5⟩; exact ⟨⟨h1, h2⟩, h3, h4, h5⟩
+    · rintro ⟨⟨h1, h2⟩, h3, h4, h5⟩; exact ⟨h1, h2, h3, h4, h5⟩
+  | x :: y :: r, p, n, N0 => by
+    have ih := linked_split s (y :: r) p n N0
+    simp only [List.cons_append, Linked] at ih ⊢
+    rw [ih]
+    constructor
+    · rintro ⟨h1, h2, h3, h4, h5, h6⟩; exact ⟨⟨h1, h2, h3⟩, h4, h5, h6⟩
+    · rintro ⟨⟨h1, h2, h3⟩, h4, h5, h6⟩; exact ⟨h1, h2, h3, h4, h5, h6⟩
+
+/-- `Linked` only looks at `next` of the non-last and `prev` of the non-first cells -/
+theorem linked_congr {s s' : Store} : ∀ (l : List Nat),
+    (∀ x ∈ l.dropLast, s'.next x = s.next x) → (∀ y ∈ l.tail, s'.prev y = s.prev y) → Linked s l → Linked s' l
+  | [], _, _, _ => trivial
+  | [_], _, _, _ => trivial
+  | x :: y :: r, hn, hp, h => by
+    obtain ⟨h1, h2, h3⟩ := h
+    refine ⟨?_, ?_, ?_⟩
+    · rw [hn x (by simp [List.dropLast])]; exact h1
+    · rw [hp y (by simp)]; exact h2
+    · apply linked_congr (y :: r) _ _ h3
+      · intro z hz; apply hn
+        simp only [List.dropLast_cons_cons, List.mem_cons] at hz ⊢
+        exact Or.inr hz
+      · intro z hz; apply hp
+        simp only [List.tail_cons, List.mem_cons] at hz ⊢
+        exact Or.inr hz
+
+theorem nextChain_of_linked (s : Store) : ∀ (as : List Nat) (x : Nat),
+    Linked s (x :: as ++ [0]) → NextChain s (s.next x) as
+  | [], x, h => by simp only [List.cons_append, List.nil_append, Linked] at h; exact h.1
+  | b :: bs, x, h => by
+    simp only [List.cons_append, Linked] at h
+    exact ⟨h.1, nextChain_of_linked s bs b (by simpa using h.2.2)⟩
+
+theorem prevChain_of_linked (s : Store) : ∀ (as : List Nat) (x : Nat),
+    Linked s (x :: as ++ [0]) → PrevChain s as
+  | [], _, _ => trivial
+  | [_], _, _ => trivial
+  | b :: c :: cs, x, h => by
+    simp only [List.cons_append, Linked] at h
+    refine ⟨h.2.2.2.1, ?_⟩
+    apply prevChain_of_linked s (c :: cs) b
+    simp only [List.cons_append, Linked]
+    exact h.2.2
+
+/-- walking `prev` : start, the cells visited, the cell reached after them -/
+def PrevWalk (s : Store) : Nat → List Nat → Nat → Prop
+  | a, [], e => a = e
+  | a, b :: bs, e => a = b ∧ PrevWalk s (s.prev b) bs e
+
+theorem prevWalk_snoc (s : Store) : ∀ (l : List Nat) (a b e : Nat),
+    PrevWalk s a l b → s.prev b = e → PrevWalk s a (l ++ [b]) e
+  | [], a, b, e, h, he => by simp only [PrevWalk] at h; subst h; exact ⟨rfl, he⟩
+  | c :: cs, a, b, e, h, he => ⟨h.1, prevWalk_snoc s cs _ b e h.2 he⟩
+
+theorem prevWalk_of_linked (s : Store) : ∀ (as : List Nat) (x e : Nat),
+    Linked s (x :: as ++ [e]) → PrevWalk s (s.prev e) as.reverse x
+  | [], x, e, h => by simp only [List.cons_append, List.nil_append, Linked] at h; exact h.2.1
+  | b :: bs, x, e, h => by
+    simp only [List.cons_append, Linked] at h
+    have ih := prevWalk_of_linked s bs b e (by simpa using h.2.2)
+    rw [List.reverse_cons]
+    exact prevWalk_snoc s _ _ b x ih h.2.1
+
+theorem iter_of_chain (s : Store) : ∀ (as : List Nat) (a f : Nat),
+    NextChain s a as → 0 ∉ as → as.length ≤ f → iter f s a = as.map s.key
+  | [], a, f, h, _, _ => by
+    simp only [NextChain] at h; subst h
+    cases f <;> simp [iter]
+  | b :: bs, a, f, h, h0, hf => by
+    obtain ⟨rfl, h'⟩ := h
+    obtain ⟨f', rfl⟩ : ∃ f', f = f' + 1 := ⟨f - 1, by simp at hf; omega⟩
+    have hb : a ≠ 0 := fun e => h0 (by simp [e])
+    simp only [iter, hb, ↓reduceIte, List.map_cons, List.cons.injEq, true_and]
+    exact iter_of_chain s bs _ f' h' (fun h => h0 (by simp [h])) (by simp at hf; omega)
+
+theorem reversed_of_walk (s : Store) : ∀ (l : List Nat) (a f : Nat),
+    PrevWalk s a l 0 → 0 ∉ l → l.length ≤ f → reversed f s a = l.map s.key
+  | [], a, f, h, _, _ => by
+    simp only [PrevWalk] at h; subst h
+    cases f <;> simp [reversed]
+  | b :: bs, a, f, h, h0, hf => by
+    obtain ⟨rfl, h'⟩ := h
+    obtain ⟨f', rfl⟩ : ∃ f', f = f' + 1 := ⟨f - 1, by simp at hf; omega⟩
+    have hb : a ≠ 0 := fun e => h0 (by simp [e])
+    simp only [reversed, hb, ↓reduceIte, List.map_cons, List.cons.injEq, true_and]
+    exact reversed_of_walk s bs _ f' h' (fun h => h0 (by simp [h])) (by simp at hf; omega)
+
+theorem reprA_toList {s : Store} {as L : List Nat} (h : ReprA s as L) :
+    toList s = L ∧ toListRev s = L.reverse := by
+  constructor
+  · unfold toList
+    rw [iter_of_chain s as _ _ (nextChain_of_linked s as 0 h.linked) h.nz (Nat.le_of_lt h.len), h.keys]
+  · unfold toListRev
+    have hw := prevWalk_of_linked s as 0 0 h.linked
+    rw [reversed_of_walk s as.reverse _ _ hw (by simpa using h.nz) (by simpa using Nat.le_of_lt h.len),
+      ← h.keys, List.map_reverse]
+
+theorem reprA_empty : ReprA empty [] [] where
+  linked := by simp [Linked, empty]
+  keys := rfl
+  nodup := List.nodup_nil
+  nz := by simp
+  bound := by simp
+  len := by simp [empty]
+  knodup := List.nodup_nil
+  mapIn := by simp
+  mapOut := by simp [empty]
+
+/-- in a represented store the map tells membership -/
+theorem reprA_map_some {s : Store} {as L : List Nat} (h : ReprA s as L) (k : Nat) :
+    (k ∈ L → ∃ a ∈ as, s.key a = k ∧ s.map k = some a) ∧ (k ∉ L → s.map k = none) := by
+  refine ⟨?_, h.mapOut k⟩
+  intro hk
+  rw [← h.keys] at hk
+  obtain ⟨a, ha, rfl⟩ := List.mem_map.mp hk
+  exact ⟨a, ha, rfl, h.mapIn a ha⟩
+
+theorem reprA_add {s : Store} {as L : List Nat} (h : ReprA s as L) (k : Nat) :
+    (k ∈ L → add k s = s) ∧ (k ∉ L → ReprA (add k s) (as ++ [s.fresh]) (L ++ [k])) := by
+  constructor
+  · intro hk
+    obtain ⟨a, _, _, hm⟩ := (reprA_map_some h k).1 hk
+    unfold add; rw [hm]
+  · intro hk
+    have hm : s.map k = none := h.mapOut k hk
+    have hfresh_pos : 0 < s.fresh := Nat.lt_of_le_of_lt (Nat.zero_le _) h.len
+    have hfa : s.fresh ∉ as := fun hm' => Nat.lt_irrefl _ (h.bound _ hm')
+    have hf0 : s.fresh ≠ 0 := Nat.ne_of_gt hfresh_pos
+    -- the ring before: P0 ++ [p] ++ [0] with p = the last cell (the sentinel itself when empty)
+    obtain ⟨P0, p, hP⟩ : ∃ P0 p, 0 :: as = P0 ++ [p] := by
+      rcases List.eq_nil_or_concat (0 :: as) with h' | ⟨P0, p, h'⟩
+      · simp at h'
+      · exact ⟨P0, p, by simpa using h'⟩
+    have hlinked := h.linked
+    have hring : 0 :: as ++ [0] = P0 ++ p :: 0 :: [] := by
+      rw [show 0 :: as ++ [0] = (0 :: as) ++ [0] by rfl, hP]; simp
+    rw [hring, linked_split] at hlinked
+    obtain ⟨hL1, hnp, hp0, _⟩ := hlinked
+    have hPnd : (P0 ++ [p]).Nodup := by
+      rw [← hP]; exact List.nodup_cons.mpr ⟨h.nz, h.nodup⟩
+    have hpP0 : p ∉ P0 := by
+      have := List.nodup_append.mp hPnd
+      intro hm'; exact this.2.2 p hm' p (by simp) rfl
+    have hpmem : p ∈ 0 :: as := by rw [hP]; simp
+    have hpf : p ≠ s.fresh := by
+      intro e
+      rcases List.mem_cons.mp hpmem with h0 | h1
+      · exact hf0 (e ▸ h0)
+      · exact hfa (e ▸ h1)
+    have hadd : add k s = { key := upd s.key s.fresh k
+                            prev := upd (upd s.prev s.fresh p) 0 s.fresh
+                            next := upd (upd s.next s.fresh 0) p s.fresh
+                            map := upd s.map k (some s.fresh)
+                            fresh := s.fresh + 1 } := by
+      unfold add; rw [hm]; simp only [hp0]
+    rw [hadd]
+    refine { linked := ?_, keys := ?_, nodup := ?_, nz := ?_, bound := ?_, len := ?_, knodup := ?_,
+             mapIn := ?_, mapOut := ?_ }
+    · -- the new ring: P0 ++ [p] ++ [fresh, 0]
+      have hring' : 0 :: (as ++ [s.fresh]) ++ [0] = P0 ++ p :: s.fresh :: [0] := by
+        rw [show 0 :: (as ++ [s.fresh]) ++ [0] = (0 :: as) ++ [s.fresh, 0] by simp, hP]; simp
+      rw [hring', linked_split]
+      refine ⟨?_, ?_, ?_, ?_⟩
+      · apply linked_congr (P0 ++ [p]) _ _ hL1
+        · intro x hx
+          simp only [List.dropLast_concat] at hx
+          have hxp : x ≠ p := fun e => hpP0 (e ▸ hx)
+          have hxf : x ≠ s.fresh := by
+            intro e
+            have : x ∈ 0 :: as := by rw [hP]; simp [hx]
+            rcases List.mem_cons.mp this with h0 | h1
+            · exact hf0 (e ▸ h0)
+            · exact hfa (e ▸ h1)
+          simp [upd, hxp, hxf]
+        · intro y hy
+          have hyas : y ∈ as := by
+            have : (P0 ++ [p]).tail = as := by rw [← hP]; rfl
+            rw [this] at hy; exact hy
+          have hy0 : y ≠ 0 := fun e => h.nz (e ▸ hyas)
+          have hyf : y ≠ s.fresh := fun e => hfa (e ▸ hyas)
+          simp [upd, hy0, hyf]
+      · simp [upd]
+      · simp [upd, hf0]
+      · simp only [Linked, and_true]
+        refine ⟨?_, by simp [upd]⟩
+        have : s.fresh ≠ p := fun e => hpf e.symm
+        simp [upd, this]
+    · simp only [List.map_append, List.map_cons, List.map_nil, upd, ↓reduceIte]
+      rw [← h.keys]
+      congr 1
+      apply List.map_congr_left
+      intro a ha
+      have : a ≠ s.fresh := fun e => hfa (e ▸ ha)
+      simp [upd, this]
+    · exact List.nodup_append.mpr ⟨h.nodup, by simp, by
+        intro a ha b hb
+        simp only [List.mem_singleton] at hb
+        subst hb
+        exact fun e => hfa (e ▸ ha)⟩
+    · simp only [List.mem_append, List.mem_singleton, not_or]
+      exact ⟨h.nz, fun e => hf0 e.symm⟩
+    · intro a ha
+      simp only [List.mem_append, List.mem_singleton] at ha
+      rcases ha with ha | rfl
+      · exact Nat.lt_succ_of_lt (h.bound a ha)
+      · exact Nat.lt_succ_self _
+    · simp only [List.length_append, List.length_singleton]
+      exact Nat.succ_lt_succ h.len
+    · exact List.nodup_append.mpr ⟨h.knodup, by simp, by
+        intro a ha b hb
+        simp only [List.mem_singleton] at hb
+        subst hb
+        exact fun e => hk (e ▸ ha)⟩
+    · intro a ha
+      simp only [List.mem_append, List.mem_singleton] at ha
+      rcases ha with ha | rfl
+      · have haf : a ≠ s.fresh := fun e => hfa (e ▸ ha)
+        have hka : s.key a ≠ k := by
+          intro e
+          apply hk
+          rw [← h.keys, ← e]
+          exact List.mem_map.mpr ⟨a, ha, rfl⟩
+        simp only [upd, haf, ↓reduceIte, hka]
+        exact h.mapIn a ha
+      · simp [upd]
+    · intro k' hk'
+      simp only [List.mem_append, List.mem_singleton, not_or] at hk'
+      simp only [upd, hk'.2, ↓reduceIte]
+      exact h.mapOut k' hk'.1
+
+theorem reprA_discard {s : Store} {as L : List Nat} (h : ReprA s as L) (k : Nat) :
+    (k ∉ L → discard k s = s) ∧
+    (k ∈ L → ∃ as1 a as2, as = as1 ++ a :: as2 ∧ s.key a = k ∧ ReprA (discard k s) (as1 ++ as2) (L.erase k)) := by
+  constructor
+  · intro hk
+    unfold discard; rw [h.mapOut k hk]
+  · intro hk
+    obtain ⟨a, ha, hka, hm⟩ := (reprA_map_some h k).1 hk
+    obtain ⟨as1, as2, has⟩ := List.append_of_mem ha
+    refine ⟨as1, a, as2, has, hka, ?_⟩
+    subst has
+    have hnd := h.nodup
+    have ha1 : a ∉ as1 := by
+      have := List.nodup_append.mp hnd
+      intro hm'; exact this.2.2 a hm' a (by simp) rfl
+    have hnd2 : (a :: as2).Nodup := (List.nodup_append.mp hnd).2.1
+    have ha2 : a ∉ as2 := (List.nodup_cons.mp hnd2).1
+    have h12 : ∀ x ∈ as1, x ∉ as2 := by
+      intro x hx hx2
+      exact (List.nodup_append.mp hnd).2.2 x hx x (by simp [hx2]) rfl
+    have hz1 : 0 ∉ as1 := fun hm' => h.nz (by simp [hm'])
+    have hz2 : 0 ∉ as2 := fun hm' => h.nz (by simp [hm'])
+    have ha0 : a ≠ 0 := fun e => h.nz (by simp [e])
+    -- P = 0 :: as1 = P0 ++ [p]; N = as2 ++ [0] = n :: N0
+    obtain ⟨P0, p, hP⟩ : ∃ P0 p, 0 :: as1 = P0 ++ [p] := by
+      rcases List.eq_nil_or_concat (0 :: as1) with h' | ⟨P0, p, h'⟩
+      · simp at h'
+      · exact ⟨P0, p, by simpa using h'⟩
+    obtain ⟨n, N0, hN⟩ : ∃ n N0, as2 ++ [0] = n :: N0 := by
+      cases as2 with
+      | nil => exact ⟨0, [], rfl⟩
+      | cons b bs => exact ⟨b, bs ++ [0], rfl⟩
+    have hring : 0 :: (as1 ++ a :: as2) ++ [0] = P0 ++ p :: a :: (n :: N0) := by
+      rw [show 0 :: (as1 ++ a :: as2) ++ [0] = (0 :: as1) ++ a :: (as2 ++ [0]) by simp, hP, hN]; simp
+    have hlinked := h.linked
+    rw [hring, linked_split] at hlinked
+    obtain ⟨hL1, hnp, hpa, hL2⟩ := hlinked
+    simp only [Linked] at hL2
+    obtain ⟨hna, hpn, hL3⟩ := hL2
+    have hdis : discard k s = { unlink s a with map := upd s.map k none } := by
+      unfold discard; rw [hm]
+    have hPnd : (P0 ++ [p]).Nodup := by
+      rw [← hP]; exact List.nodup_cons.mpr ⟨hz1, (List.nodup_append.mp hnd).1⟩
+    have hpP0 : p ∉ P0 := by
+      have := List.nodup_append.mp hPnd
+      intro hm'; exact this.2.2 p hm' p (by simp) rfl
+    have hNnd : (n :: N0).Nodup := by
+      rw [← hN]
+      exact List.nodup_append.mpr ⟨(List.nodup_cons.mp hnd2).2, by simp, by
+        intro x hx y hy
+        simp only [List.mem_singleton] at hy
+        subst hy
+        exact fun e => hz2 (e ▸ hx)⟩
+    have hpmem : p ∈ 0 :: as1 := by rw [hP]; simp
+    have hnmem : n ∈ as2 ++ [0] := by rw [hN]; simp
+    rw [hdis]
+    refine { linked := ?_, keys := ?_, nodup := ?_, nz := ?_, bound := ?_, len := ?_, knodup := ?_,
+             mapIn := ?_, mapOut := ?_ }
+    · have hring' : 0 :: (as1 ++ as2) ++ [0] = P0 ++ p :: n :: N0 := by
+        rw [show 0 :: (as1 ++ as2) ++ [0] = (0 :: as1) ++ (as2 ++ [0]) by simp, hP, hN]; simp
+      rw [hring', linked_split]
+      refine ⟨?_, ?_, ?_, ?_⟩
+      · apply linked_congr (P0 ++ [p]) _ _ hL1
+        · intro x hx
+          simp only [List.dropLast_concat] at hx
+          have hxp : x ≠ p := fun e => hpP0 (e ▸ hx)
+          simp [unlink, hpa, hxp]
+        · intro y hy
+          have hyas : y ∈ as1 := by
+            have : (P0 ++ [p]).tail = as1 := by rw [← hP]; rfl
+            rw [this] at hy; exact hy
+          have hyn : y ≠ n := by
+            intro e
+            rw [e] at hyas
+            rcases List.mem_append.mp hnmem with h2 | h0
+            · exact h12 n hyas h2
+            · simp only [List.mem_singleton] at h0; exact hz1 (h0 ▸ hyas)
+          simp [unlink, hna, hyn]
+      · simp [unlink, hpa, hna]
+      · simp [unlink, hpa, hna]
+      · apply linked_congr (n :: N0) _ _ hL3
+        · intro x hx
+          have hx2 : x ∈ as2 := by
+            have : (n :: N0).dropLast = as2 := by rw [← hN]; simp
+            rw [this] at hx; exact hx
+          have hxp : x ≠ p := by
+            intro e
+            rw [e] at hx2
+            rcases List.mem_cons.mp hpmem with h0 | h1
+            · exact hz2 (h0 ▸ hx2)
+            · exact h12 p h1 hx2
+          simp [unlink, hpa, hxp]
+        · intro y hy
+          simp only [List.tail_cons] at hy
+          have hyn : y ≠ n := fun e => (List.nodup_cons.mp hNnd).1 (e ▸ hy)
+          simp [unlink, hna, hyn]
+    · simp only [unlink]
+      rw [← h.keys, ← hka]
+      simp only [List.map_append, List.map_cons]
+      have hk1 : s.key a ∉ as1.map s.key := by
+        intro hm'
+        have hkn := h.knodup
+        rw [← h.keys] at hkn
+        simp only [List.map_append, List.map_cons] at hkn
+        exact (List.nodup_append.mp hkn).2.2 _ hm' _ (by simp) rfl
+      rw [List.erase_append_right _ hk1, List.erase_cons_head]
+    · exact List.nodup_append.mpr ⟨(List.nodup_append.mp hnd).1, (List.nodup_cons.mp hnd2).2,
+        fun x hx y hy e => h12 x hx (e ▸ hy)⟩
+    · simp only [List.mem_append, not_or]; exact ⟨hz1, hz2⟩
+    · intro x hx
+      simp only [unlink]
+      apply h.bound
+      simp only [List.mem_append, List.mem_cons] at hx ⊢
+      rcases hx with hx | hx
+      · exact Or.inl hx
+      · exact Or.inr (Or.inr hx)
+    · simp only [unlink]
+      have := h.len
+      simp only [List.length_append, List.length_cons] at this ⊢
+      omega
+    · exact (List.erase_sublist).nodup h.knodup
+    · intro x hx
+      have hxa : x ∈ as1 ++ a :: as2 := by
+        simp only [List.mem_append, List.mem_cons] at hx ⊢
+        rcases hx with hx | hx
+        · exact Or.inl hx
+        · exact Or.inr (Or.inr hx)
+      have hxne : x ≠ a := by
+        intro e
+        simp only [List.mem_append] at hx
+        rcases hx with hx | hx
+        · exact ha1 (e ▸ hx)
+        · exact ha2 (e ▸ hx)
+      have hkx : s.key x ≠ k := by
+        intro e
+        have h1 := h.mapIn x hxa
+        rw [e, hm] at h1
+        exact hxne (Option.some.inj h1).symm
+      simp only [unlink, upd, hkx, ↓reduceIte]
+      exact h.mapIn x hxa
+    · intro k' hk'
+      simp only [upd]
+      by_cases e : k' = k
+      · simp [e]
+      · simp only [e, ↓reduceIte]
+        apply h.mapOut
+        intro hm'
+        exact hk' ((List.mem_erase_of_ne e).mpr hm')
+
+/-- every state reachable by add / discard from the empty set is represented, and denotes the list the
+    abstract operations compute -/
+theorem repr_runP_from : ∀ (ops : List POp) (s : Store) (L : List Nat), Repr s L →
+    Repr (ops.foldl (fun s op => applyP op s) s) (ops.foldl (fun l op => absP op l) L)
+  | [], _, _, h => h
+  | op :: r, s, L, ⟨as, h⟩ => by
+    apply repr_runP_from r
+    cases op with
+    | add k =>
+      simp only [applyP, absP]
+      by_cases hk : k ∈ L
+      · rw [(reprA_add h k).1 hk, if_pos hk]; exact ⟨as, h⟩
+      · rw [if_neg hk]; exact ⟨_, (reprA_add h k).2 hk⟩
+    | discard k =>
+      simp only [applyP, absP]
+      by_cases hk : k ∈ L
+      · obtain ⟨as1, a, as2, _, _, h'⟩ := (reprA_discard h k).2 hk
+        exact ⟨_, h'⟩
+      · rw [(reprA_discard h k).1 hk, List.erase_of_not_mem hk]; exact ⟨as, h⟩
+
+/-- `Repr` gives the hypotheses of the iteration theorem (with the fuel the driver uses) -/
+theorem iterRem_of_reprA (p : Nat → Bool) {s : Store} {as L : List Nat} (h : ReprA s as L) :
+    (iterRem p s.fresh s (s.next 0)).1 = L := by
+  rw [← h.keys]
+  apply iterRem_spec_fuel p as s (s.next 0) s.fresh (nextChain_of_linked s as 0 h.linked)
+    (prevChain_of_linked s as 0 h.linked) h.nodup h.nz (by rw [h.keys]; exact h.knodup) h.mapIn _ h.len
+  intro b bs hbs
+  subst hbs
+  have hl := h.linked
+  simp only [List.cons_append, Linked] at hl
+  rw [hl.2.1]
+  exact fun hm => h.nz (by simp [hm])
 
 end Pyx.OSetPtr
